@@ -98,11 +98,27 @@ def gen_case(seed, i):
     if rng.random() < 0.5:
         w.add_file("r/uniq", _c(99, 300))
     groups = members(w)
+    link_member = None
+    if not gflags and rng.random() < 0.12:
+        # a report made with -S: one member is a symbolic link whose target lies OUTSIDE the scanned roots
+        # (a copy of group 0); it sorts first in its group, so it is the member that is kept
+        gflags = ["-S"]
+        g0 = groups[0]
+        src = [e for e in w.entries if e["t"] == "f" and e["p"] == g0[0]][0]
+        w.add_file("elsewhere/t0", dict(src["c"]))
+        w.add_symlink("r/0link", "../elsewhere/t0")
+        link_member = "r/0link"
     edits = []
     for j in range(rng.choice([1, 1, 2])):
         grp = rng.choice(groups)
         tgt = rng.choice(grp)
         kind = rng.choice(actors.EDIT_KINDS)
+        if link_member and j == 0:
+            if rng.random() < 0.5:
+                tgt, kind = link_member, "rewrite_through"      # a plain write to the member path, i.e. through the link
+            else:
+                kind = "to_symlink_outside"                     # in a -S report a link is a legitimate member: a member
+                                                                # that BECOMES a link is told by the link's own time only
         ed = {"kind": kind, "p": tgt, "uid": "e%d-%d" % (i, j)}
         if kind == "to_symlink_member":
             ed["other"] = rng.choice([x for x in grp if x != tgt])
